@@ -188,6 +188,30 @@ CHECKS["C18"] = dict(
          "inverts the naming scheme, .par values have the documented types.",
     design="4/C18")
 
+CHECKS["C02"] = dict(
+    technique="Hypothesis rule-based state machine over request histories "
+              "with byte-level digests of every array ever supplied or "
+              "handed out (read-only inputs in half the histories); plus the "
+              "over_time and save/read generators asserting argument "
+              "immutability",
+    text="After every step of a generated history all arrays reachable from "
+         "the inputs or returned so far (incl. evicted ones and bases of "
+         "views) are re-hashed; over_time per-step arrays and save/read "
+         "argument objects are compared with deep copies after each call.",
+    design="4/C02")
+CHECKS["C03"] = dict(
+    technique="Hypothesis rule-based state machine with aggressive cache "
+              "settings and var_importance overrides; history invariants on "
+              "data / last_accessed / var_importance / calculation_count "
+              "after every request, differential vs fresh for algebraic "
+              "keys; get_size vs recursive reference on generated nested "
+              "structures",
+    text="Frozen inputs (freeze_data and load_data paths) stay cached, "
+         "identical and frozen under every generated history and cache "
+         "setting incl. thresholds below the size of the inputs; clean-up "
+         "never raises and leaves last_accessed a subset of data.",
+    design="4/C03")
+
 NOT_YET = "check not built yet in this session (see DESIGN.md section 4)"
 
 
